@@ -21,9 +21,25 @@ def cases(tier, rng):
         k += 1
     for _ in range(2500 if tier == "quick" else 40000):
         n = rng.randint(1, 4)
-        seq = fqgen.random_schedule(rng, n, rng.randint(5, 50))
+        seq = fqgen.random_schedule(rng, n, rng.randint(5, 50), removes=(rng.random() < 0.4))
         out.append("f%d fq / %s / D" % (k, " / ".join(seq)))
         k += 1
+    # a stream is removed (peer_disconnected) while the others have items queued / events pending
+    for n in (2, 3, 4):
+        for victim in range(1, n + 1):
+            for when in ("before", "after-poll", "in-window"):
+                labs = ["I%d" % s for s in range(1, n + 1)]
+                for s_ in range(1, n + 1):
+                    labs += ["A%d.%d" % (s_, s_ * 100 + i) for i in range(3)]
+                if when == "before":
+                    labs += ["R%d" % victim]
+                elif when == "after-poll":
+                    labs += ["P", "R%d" % victim]
+                else:
+                    labs += ["P:0~R%d" % victim]
+                labs += ["P"] * (3 * n + 2)
+                out.append("v%d fq / %s / D" % (k, " / ".join(labs)))
+                k += 1
     # saturated: n streams, m items each queued up front (some arriving inside the first poll's window)
     for n in range(1, 6):
         for m in (1, 2, 5, 40 if tier == "quick" else 400):
